@@ -26,7 +26,7 @@ func propC14() Property {
 			{ID: "C14-R2", Desc: "boolean literals agree between Read and Write", Min: 3, Run: c14R2},
 			{ID: "C14-R3", Desc: "integer scanner: digits only, non-empty, sign only in front, accumulation guarded", Min: 4, Run: c14R3},
 			{ID: "C14-R4", Desc: "float whitelist: digits, '.', '-' only, before the value is stored", Min: 3, Run: c14R4},
-			{ID: "C14-R5", Desc: "timestamp writers format the UTC wall clock", Min: 4, Run: c14R5},
+			{ID: "C14-R5", Desc: "timestamp writers format the UTC wall clock", Min: 1, Run: c14R5},
 		},
 	}
 }
@@ -78,23 +78,25 @@ func c14R1(c *Ctx) {
 		if callName(cl.Common()) != "(time.Time).Format" {
 			continue
 		}
-		layout, ok := p.Origin(cl.Common().Args[1]).ConstStringVal()
-		if !ok {
-			continue
-		}
-		d := p.ReachCond(cl.Block())
-		keyed := false
-		for _, a := range d.Atoms() {
-			if a.Rel == "==" && a.L.Kind == "field" && a.L.Field == fPrec {
-				if v, ok := a.R.ConstIntVal(); ok && d.Implies(func(b *Atom) bool { return b.String() == a.String() }) {
-					wlayout[v] = layout
-					keyed = true
+		for _, alt := range p.valueAlternatives(cl.Common().Args[1], cl.Block(), 0) {
+			layout, ok := p.Origin(alt.val).ConstStringVal()
+			if !ok {
+				continue
+			}
+			d := alt.cond
+			keyed := false
+			for _, a := range d.Atoms() {
+				if a.Rel == "==" && a.L.Kind == "field" && a.L.Field == fPrec {
+					if v, ok := a.R.ConstIntVal(); ok && d.Implies(func(b *Atom) bool { return b.String() == a.String() }) {
+						wlayout[v] = layout
+						keyed = true
+					}
 				}
 			}
-		}
-		if !keyed {
-			deflt = layout
-			hasDef = true
+			if !keyed {
+				deflt = layout
+				hasDef = true
+			}
 		}
 	}
 	name := FuncName(rd)
@@ -523,4 +525,32 @@ func c18R3(c *Ctx) {
 	if n == 0 {
 		c.Violation("", "-", "no-day-arithmetic", "the schedule code does no calendar arithmetic (time.Date / AddDate not found)")
 	}
+}
+
+type valueAlt struct {
+	val  ssa.Value
+	cond DNF
+}
+
+// valueAlternatives: the values v can take at a use in block use, each with the condition
+// under which it is chosen (phi edges are followed; anything else is one alternative).
+func (p *Prog) valueAlternatives(v ssa.Value, use *ssa.BasicBlock, depth int) []valueAlt {
+	phi, ok := v.(*ssa.Phi)
+	if !ok || depth > 3 {
+		return []valueAlt{{v, p.ReachCond(use)}}
+	}
+	var out []valueAlt
+	b := phi.Block()
+	for i, e := range phi.Edges {
+		pred := b.Preds[i]
+		cond := dnfAnd(p.ReachCond(pred), edgeCond(p, pred, b))
+		if inner, ok := e.(*ssa.Phi); ok && depth < 3 {
+			for _, a := range p.valueAlternatives(inner, pred, depth+1) {
+				out = append(out, valueAlt{a.val, dnfAnd(a.cond, cond)})
+			}
+			continue
+		}
+		out = append(out, valueAlt{e, cond})
+	}
+	return out
 }
